@@ -330,7 +330,7 @@ func (e *Engine) runIdle(g *Term, pos token.Pos) {
 		return
 	}
 	hook := e.idleHook
-	// guard against re-entrancy
+	// guard against re-entrancy; the hook may install a hook of its own for blocking calls it makes (nesting)
 	e.idleHook = FuncV{}
 	defer func() { e.idleHook = hook }()
 	e.callValue(hook, nil, g, pos, nil)
